@@ -29,9 +29,9 @@ TEXT_TYPES = ["string", "wstring", "uri"]
 ENCODABLE = z3.Star(z3.Union(z3.Range(chr(0), chr(0xD7FF)), z3.Range(chr(0xDC80), chr(0xDCFF)), z3.Range(chr(0xE000), chr(0x2FFFF))))
 # (text with a surrogate outside the escape range U+DC80..U+DCFF has no encoding: the write is refused - what must not happen is that it comes back as other text)
 LONE = ["'\\ud800'", "'a\\udfffb'", "'\\udbff\\udc00'", "'caf\\udce9 \\ud83d'"]
-EXTRA_VALUES = {"string": LONE, "wstring": LONE[:1], "uri": LONE[:1], "stringlist": ["['x', '\\ud800']"], "dynamic": LONE[:1], "net.ipaddress": ["'255.255.255.255'", "'0.0.0.0'", "'::ffff:1.2.3.4'", "'2001:db8::1'"], "float": ["-0.0", "float('inf')", "5e-324"], "boolean": ["True", "False"],
+EXTRA_VALUES = {"string": LONE, "wstring": LONE[:1], "uri": LONE[:1], "stringlist": ["['x', '\\ud800']"], "dynamic": LONE[:1] + ["['x', 0]", "['/tmp/a', 1]", "['x', True]", "['c:\\\\x', False]", "[]", "['only one']"], "net.ipaddress": ["'255.255.255.255'", "'0.0.0.0'", "'::ffff:1.2.3.4'", "'2001:db8::1'"], "float": ["-0.0", "float('inf')", "5e-324"], "boolean": ["True", "False"],
                 "path": ["'relative/p'", "'C:\\\\Users\\\\x'", "'/'"], "datetime": ["DT(1, 1, 1, tzinfo=TZ(TD(0)))", "DT(9999, 12, 31, 23, 59, 59, 999999, tzinfo=TZ(TD(0)))", "DT(2021, 10, 31, 2, 30, tzinfo=TZ(TD(hours=-3, minutes=-30)))", "DT(2020, 1, 2, 3, 4, 5, 6, tzinfo=TZ(TD(minutes=19, seconds=32)))", "DT(1900, 1, 1, tzinfo=TZ(-TD(hours=4, minutes=56, seconds=2)))"],
-                "bytes": ["bytes(range(256))"], "command": ["'x'"], "dictlist": ["[{'a': [1, 2]}]", "[{'a': {'b': 1}, 'c': None}]", "[{b'k': 1, 'k': 2}]", "[{b'\\xff': b'v'}]", "[{1: 'a', 2.5: None, True: 'b'}]", "[{-7: {2: 'nested'}}]"], "digest": ["('d41d8cd98f00b204e9800998ecf8427e', 'da39a3ee5e6b4b0d3255bfef95601890afd80709', 'e3b0c44298fc1c149afbf4c8996fb92427ae41e4649b934ca495991b7852b855')"]}
+                "bytes": ["bytes(range(256))"], "command": ["'x'", "\"''\"", "\"'' -c 'echo hello'\"", "'\"\" /x /y'", "'%COMSPEC% /c dir'"], "dictlist": ["[{'a': [1, 2]}]", "[{'a': {'b': 1}, 'c': None}]", "[{b'k': 1, 'k': 2}]", "[{b'\\xff': b'v'}]", "[{1: 'a', 2.5: None, True: 'b'}]", "[{-7: {2: 'nested'}}]"], "digest": ["('d41d8cd98f00b204e9800998ecf8427e', 'da39a3ee5e6b4b0d3255bfef95601890afd80709', 'e3b0c44298fc1c149afbf4c8996fb92427ae41e4649b934ca495991b7852b855')"]}
 
 
 def pyvalue(src):
